@@ -478,7 +478,11 @@ func checkC18(c *ctx) {
 	// the segment API's Merge method on ONE persisted and re-opened segment with nothing deleted (the
 	// shape of a compaction), channel closed before the call
 	for k := 0; k < c.n(3, 20); k++ {
-		sb, _, err := zh.Build(zh.GenBatch(c.R, zh.RandOpts(c.R, 2+c.R.Intn(8), "p")), randMode(c))
+		mode := randMode(c)
+		if k%2 == 0 {
+			mode = zap.DefaultChunkMode
+		}
+		sb, _, err := zh.Build(zh.GenBatch(c.R, zh.RandOpts(c.R, 2+c.R.Intn(8), "p")), mode)
 		must(err)
 		seg, ipath, err := zh.PersistOpen(sb)
 		must(err)
